@@ -77,7 +77,7 @@ def one(ctx, sk, curve, dom, d, k, digest, at, cls_hint, keybase, via="sign_dige
         if via == "sign_number":
             got = sk.sign_number(e, k=k)
         else:
-            got = sk.sign_digest(dig_arg, sigencode=lambda r, s, o: (r, s, o), k=k, allow_truncate=at)
+            got = sk.sign_digest(dig_arg, sigencode=lambda r, s, o: (r, s, o), k=k, allow_truncate=gen.boolish(at, _BL["i"]))
         outcome = None
     except RSZeroError:
         outcome = "RSZeroError"
